@@ -225,6 +225,7 @@ PROPS = {
         "units": [
             regress("C20"),
             {"run": "^TestC20$", "quick": 8000, "thorough": 60000},
+            {"run": "^TestC20Late$", "quick": 1, "thorough": 1, "single": True, "rapid": False},
         ],
     },
     "C12": {
